@@ -84,7 +84,7 @@ def ob_handshake(report):
                 continue
             if vname(ret.fields[0].fields[0]) != 'conn':
                 return viol(ob, [ex], 'handshake returns a different connection', 'hs-conn', path_summary(r), len(res))
-            names = [(e.name if isinstance(e.name, str) else '') for e in r.events if e.kind in ('call', 'poll')]
+            names = [(e.name if isinstance(e.name, str) else '') for e in r.events if e.kind in ('call', 'poll', 'enter')]
             seq = [n for n in names]
             pcs = ' '.join(str(z3.simplify(c)).replace('\n', ' ') for c in r.pc if 'origin(' not in str(c))
             def has(pat):
